@@ -60,6 +60,25 @@ C27  Control.tla transcribes control.proto (Proto), pubSubscribe/pubUnsubscribe/
        subscribe:option:RecoveryMode  subscribe:option:AutoCacheRecover  subscribe:option:HistoryMetaTTL
        subscribe:field:ServerTagsFilter   (no With... constructor; a custom SubscribeOption closure sets the field)
      Mutations: see MUTATIONS_C27 below.
+     Extension (after the seeded changes C27-1 / C27-2 passed):
+     * Control.tla: unsubscribe has the pseudo-option EmptyChannel (channel argument ""); the harness subscribes every
+       connection to two channels, component `rest` = what became of the second (kept / gone); signature
+       unsubscribe:emptych:remote-dropped when the remote call touches nobody.  (The first version excluded "" as
+       "C28's domain"; C28 covers it with the four connections spread over both nodes, C27 now compares it local/remote.)
+     * ControlX.tla + harness mode c27x: (1) the label filter as a parameter over the filter grammar: 13 leaves (eq neq
+       in nin ex nex sw ew ct gt gte lt lte, values chosen so that every operand matters on the connections T {tier: pro,
+       lvl: 10}, D {tier: free, lvl: 5}, U {} - ASSUME OperandMatters), not / and / or with two children and two
+       three-level shapes (quick 146 trees, thorough 412) x 4 operations; reference: Dec(Enc(f)) = f
+       (controlpbFilterFromProto / protoFilterFromControlpb copy all six fields) hence the same connections are touched;
+       replay: call on A vs call on B, touched sets compared (IsSubscribed / refresh push / transport close), the tree
+       found in the control message and the model's touched set are conformance checks; signature
+       <op>:filter:<comparators>:remote-differs.  (2) phase rows: Node.Unsubscribe(user, ch | "") issued on A or B while
+       the target's subscription is live / cb / csbr / ssbr (holds as in C28 phases); outcome after release compared
+       local vs remote; signature unsubscribe:in-progress:<phase>:<named|emptych>:remote-differs.
+       /repo HEAD: green seeds 1-3 and thorough.  Seeded C27-1 (Vals copied only for "in" on decode): exit 1,
+       {subscribe,unsubscribe,refresh,disconnect}:filter:nin:remote-differs (88 rows).  Seeded C27-2 (handleControl
+       drops an unsubscribe when NumSubscribers(channel) == 0): exit 1, unsubscribe:emptych:remote-dropped,
+       unsubscribe:in-progress:cb:named:remote-differs and the four ...:emptych:remote-differs.
 
 C41  Survey.tla: registry, response channel of capacity numNodes, eager collector, deadline, the window between the
      collector's end and the registry delete, sync / async / absent local answer, responses in any order with
@@ -243,7 +262,7 @@ META = {
     'C27': dict(
         level='model_checking',
         text='Control.tla transcribes control.proto, the four pub* encoders and handleControl as option->field->option maps and an abstract effect of every option; TLC checks for every enumerated option set that the remote effect equals the local effect of the option set minus the options the spec states as lost. Every row is then executed on two real nodes joined by a harness Controller, once with the call on the node holding the connections and once on the other node, and the real effects are compared component by component (pushes, callbacks, presence, join, history-call shape, probes, ChannelContext); a difference is attributed to options by re-running locally without one option.',
-        note='Bounds: every option absent or one distinguished value; subscribe: pairwise-complete option sets + all subsets of the six recovery-related options (quick 446 sets, thorough 4701), unsubscribe/disconnect/refresh: all option sets (64/128/256); four connections (target, same-user decoy, other user, anonymous).' + _trusted,
+        note='Bounds: every option absent or one distinguished value; subscribe: pairwise-complete option sets + all subsets of the six recovery-related options (quick 446 sets, thorough 4701), unsubscribe/disconnect/refresh: all option sets (128/128/256, unsubscribe with named and empty channel); four connections (target, same-user decoy, other user, anonymous); label filters: 146 (thorough 412) trees over all 13 comparators and and/or/not x 4 operations; remote unsubscribe in 4 subscription phases x named/empty channel.' + _trusted,
         technique='TLA+ transcription of the wire projection + TLC enumeration (function table via -dump); table replay on two real nodes, local vs remote',
         design_ref='DESIGN.md 4.3/4.4, 8 (C27), 10 item 7'),
     'C28': dict(
